@@ -297,6 +297,19 @@ pub fn run(o: &mut Out, tier: &str, seed: u64) {
         let tx = gen::tx(&mut r); let b = serialize(&tx);
         o.stat(&format!("gen.v{}.rct{}", tx.prefix.version.0, tx.rct_signatures.sig.as_ref().map(|s| gen::rct_num(s.rct_type) as i32).unwrap_or(-1)));
         dec_case(o, "tx", &b, "valid");
+        // "every identifier computed from a parsed object commits to the bytes received": the id and prefix hash of the parsed bytes
+        // (model: the three-hash formula over the byte ranges; spec: boundaries from the by-the-book skipper), then of NEIGHBOURS that
+        // share the prefix and differ in one byte behind it (what a memo keyed on the prefix would confuse), and of one that differs
+        // inside the prefix; ids of different accepted byte strings must differ
+        if it % 3 == 0 && b.len() < 6000 {
+            let p = serialize(&tx.prefix).len(); let id0 = o.op(format!("c05_txid {}", hex(&b)), true);
+            for k in 0..3 { let mut m = b.clone();
+                let pos = if k < 2 && p < b.len() { p + r.below((b.len() - p) as u64) as usize } else { r.below(p.max(1) as u64) as usize };
+                m[pos] ^= 1 << r.below(8);
+                let idm = o.op(format!("c05_txid {}", hex(&m)), false);
+                if idm != "err" { o.stat("id.neighbour.parsed"); o.direct(idm != id0, "C01: two different accepted byte strings have different identifiers (ids commit to the received bytes)", format!("c05_txid {}", trunc(&hex(&m), 600)), idm.clone(), format!("anything but {}", id0)); }
+                let again = o.op(format!("c05_txid {}", hex(&b)), false);
+                o.direct(again == id0, "C01: the identifier of the same bytes is the same after a neighbour was hashed", format!("c05_txid {}", trunc(&hex(&b), 600)), again, id0.clone()); } }
         for _ in 0..(if b.len() > 4000 { 4 } else { n_mut }) { let m = gen::mutate(&mut r, &b); dec_case(o, "tx", &m, "mutated"); }
         if it % 4 == 0 { components(o, &mut r, &tx, 3); }
         // exhaustive tag sweep: all 256 values at each of the first structural byte positions of some transactions
